@@ -336,6 +336,28 @@ def nameMap (nodes : List ModNodeX) (m2o : List (Int × Int)) : List (String × 
       if d.any (fun x => x.1 == nm) then d.map (fun x => if x.1 == nm then (x.1, o) else x) else d ++ [(nm, o)]
     | none => d) []
 
+/-- one iteration of the node loop of `apply_mod_mapping` on the dictionaries and the
+`modifications` lists: a new particle gets the attributes of the modification node, an existing one
+`node.update(replace)`; both get the modification appended to their `modifications` list -/
+def modNodeStep (m2o : List (Int × Int)) (modId : Nat) (xm : XT × List (Int × List Nat)) (n : ModNodeX) :
+    XT × List (Int × List Nat) :=
+  match m2o.lookup n.key with
+  | none => xm
+  | some k =>
+    let x1 := if n.isNew then xset xm.1 k n.attrs else xset xm.1 k (dupdate ((xget xm.1 k).getD []) n.replace)
+    (x1, modsAdd xm.2 k modId)
+
+/-- `applied_interactions` of one `apply_mod_mapping` call -/
+def appliedOf (m2o : List (Int × Int)) (inters : List (String × Inter)) : ModInterT :=
+  inters.foldl (fun t ti =>
+    match ti.2.atoms.mapM (fun a => m2o.lookup a) with
+    | some atoms => appliedAdd t ti.1 atoms
+    | none => t) []
+
+/-- `modified_interactions.update(applied_interactions)`: per interaction TYPE the earlier record is
+replaced, not merged -/
+def modInterUpdate (t applied : ModInterT) : ModInterT := applied.foldl (fun t e => typeSet t e.1 e.2) t
+
 def applyModX (sx : StX) (q : ModPlacementX) : StX :=
   if sx.st.err.isSome then sx else
   let st' := applyMod sx.st q.base
@@ -343,20 +365,9 @@ def applyModX (sx : StX) (q : ModPlacementX) : StX :=
   match placeModNodes sx.st q.base q.base.nodes sx.st.out [] with
   | none => { sx with st := st' }
   | some (_, m2o) =>
-    -- the node loop: dictionaries and `modifications` lists
-    let xm := q.nodes.foldl (fun (xm : XT × List (Int × List Nat)) n =>
-      match m2o.lookup n.key with
-      | none => xm
-      | some k =>
-        let x1 := if n.isNew then xset xm.1 k n.attrs else xset xm.1 k (dupdate ((xget xm.1 k).getD []) n.replace)
-        (x1, modsAdd xm.2 k q.modId)) (sx.xattrs, sx.mods)
-    -- `applied_interactions`, then `modified_interactions.update(applied_interactions)`
-    let applied : ModInterT := q.inters.foldl (fun t ti =>
-      match ti.2.atoms.mapM (fun a => m2o.lookup a) with
-      | some atoms => appliedAdd t ti.1 atoms
-      | none => t) []
+    let xm := q.nodes.foldl (modNodeStep m2o q.modId) (sx.xattrs, sx.mods)
     { st := st', xattrs := xm.1, mods := xm.2,
-      modInters := applied.foldl (fun t e => typeSet t e.1 e.2) sx.modInters,
+      modInters := modInterUpdate sx.modInters (appliedOf m2o q.inters),
       logs := q.logs.foldl (fun t e => logAdd t e [nameMap q.nodes m2o]) sx.logs,
       cites := C12.unionSet sx.cites q.cites }
 
